@@ -221,6 +221,7 @@ pub fn run_program(line: &str, checkpoint: Option<&str>, opts: Opts) {
                 *start_path.borrow_mut() = path.to_string();
             }
             loom::verif::Phase::End => {
+                extras::iteration_ok();
                 LOG.with(|l| {
                     for e in l.borrow_mut().drain(..) {
                         out(e);
@@ -261,6 +262,7 @@ pub fn run_program(line: &str, checkpoint: Option<&str>, opts: Opts) {
         });
     }));
     loom::verif::set_iteration_hook(None);
+    extras::abandon();
     match r {
         Ok(()) => out(format!("DONE {} ok", iters.get())),
         Err(p) => {
